@@ -58,6 +58,7 @@ the remaining clauses of the same case are still evaluated. Signatures listed in
 only when a case has no other failure, so the search continues behind them as well.
 """
 import functools
+import json
 import os
 
 from hypothesis import strategies as st
@@ -674,7 +675,58 @@ def _all_failures(case):
             fails.append(Fail(_consumed_sig(m) + '/second-call', f'after the second call, {m.path}: {m.detail}'))
         if not mutated and (c1.hash != c2.hash or rv.to_tree(c1) != rv.to_tree(c2)):
             fails.append(Fail('twice/cell-differs', f'{c1.hash.hex()} != {c2.hash.hex()} with unmodified inputs'))
+    # (D) no stale state: after the caller changes a (nested) value, serialising reflects the NEW value
+    if not mutated and not fails:
+        mut = _find_mutation(specs)
+        if mut is not None:
+            path, kind = mut
+            specs2 = json.loads(json.dumps(specs))
+            node, obj = specs2[path[0]], s[path[0]]
+            for i in path[1:]:
+                node, obj = node['items'][i], obj.list[i]
+            if kind == 'append':
+                node['items'].append({'t': 'int', 'v': '12345'})
+                obj.append(12345)
+            else:
+                node['c']['bits'] += '1'
+                obj.store_bit(1)
+            ok, c3 = call(VmStack.serialize, s)
+            if not ok:
+                fails.append(Fail(f'after-mutation/serialize-raises/{exc_sig(c3)}', repr(c3)))
+            else:
+                try:
+                    d3 = rv.decode_stack(rv.to_tree(c3))
+                except (rv.DecodeError, RecursionError) as e:
+                    d3 = None
+                    fails.append(Fail('after-mutation/undecodable', str(e)))
+                if d3 is not None:
+                    for m in diff(d3, [expect(v) for v in specs2]):
+                        fails.append(Fail(f'after-mutation/stale-or-wrong/{kind}', f'serialised, then {kind} at {path}, serialised again: '
+                                          f'{m.path}: {m.detail}'))
+                        break
     return _dedupe(fails)
+
+
+def _find_mutation(specs):
+    """a caller-side change to apply between two serialisations: append to a nested tuple / store a bit into a builder held in
+    a tuple (preferred, below the top level), else append to a top-level tuple; None when the stack has no such value"""
+    best = [None, None]
+
+    def walk(v, path, depth):
+        if v['t'] == 'tuple':
+            if len(v['items']) < 250:
+                if depth >= 1 and best[0] is None:
+                    best[0] = (path, 'append')
+                elif depth == 0 and best[1] is None:
+                    best[1] = (path, 'append')
+            for i, x in enumerate(v['items']):
+                walk(x, path + [i], depth + 1)
+        elif v['t'] == 'builder' and depth >= 1 and best[0] is None and len(v['c']['bits']) < 900:
+            best[0] = (path, 'store')
+
+    for i, v in enumerate(specs):
+        walk(v, [i], 0)
+    return best[0] or best[1]
 
 
 def _consumed_sig(m):
